@@ -306,10 +306,16 @@ fn compress_lz4(_input: &[u8], _output: &mut Vec<u8>) -> Result<(), ArrowError> 
     ))
 }
 
+/// Upper bound for the capacity reserved from a length field before any data was decompressed
+#[cfg(any(feature = "lz4", feature = "zstd"))]
+const MAX_PREALLOC_DECOMPRESSED: usize = 64 * 1024 * 1024;
+
 #[cfg(feature = "lz4")]
 fn decompress_lz4(input: &[u8], decompressed_size: usize) -> Result<Vec<u8>, ArrowError> {
     use std::io::Read;
-    let mut output = Vec::with_capacity(decompressed_size);
+    // `decompressed_size` comes from the input: do not trust it for the allocation up front,
+    // `read_to_end` grows the buffer as data actually arrives
+    let mut output = Vec::with_capacity(decompressed_size.min(MAX_PREALLOC_DECOMPRESSED));
     lz4_flex::frame::FrameDecoder::new(input).read_to_end(&mut output)?;
     Ok(output)
 }
@@ -351,6 +357,29 @@ fn decompress_zstd(
     decompressed_size: usize,
     context: &mut DecompressionContext,
 ) -> Result<Vec<u8>, ArrowError> {
+    // `decompressed_size` comes from the input and sizes the output allocation: check it
+    // against the content size recorded in the zstd frame header, when there is one
+    match zstd::zstd_safe::get_frame_content_size(input) {
+        Ok(Some(frame_size)) if decompressed_size as u64 > frame_size => {
+            return Err(ArrowError::IpcError(format!(
+                "Declared uncompressed length {decompressed_size} exceeds the zstd frame content size {frame_size}"
+            )));
+        }
+        Ok(Some(_)) => {}
+        Ok(None) => {
+            // no content size in the frame: decompress incrementally instead of
+            // allocating the declared length up front
+            use std::io::Read;
+            let mut output = Vec::with_capacity(decompressed_size.min(MAX_PREALLOC_DECOMPRESSED));
+            zstd::stream::read::Decoder::new(input)?.read_to_end(&mut output)?;
+            return Ok(output);
+        }
+        Err(_) => {
+            return Err(ArrowError::IpcError(
+                "Compressed IPC buffer does not start with a valid zstd frame".to_string(),
+            ));
+        }
+    }
     let output = context
         .zstd_decompressor()
         .decompress(input, decompressed_size)?;
